@@ -60,6 +60,16 @@ CHECKS['C19'] = ('pbc',
 ENGINES['frames'] = ('harness/drivers/frames.py', 'Frames.tla + MC_Frames.tla + Trace_Frames.tla')
 ENGINES['pbc'] = ('harness/drivers/pbc.py', 'PBC.tla + MC_PBC.tla + Trace_PBC.tla')
 
+CHECKS['C15'] = ('itp',
+  'Itp.tla token-level model of .itp files (Abs view by section in order of first appearance; topology = name, atoms, bond set over bonds/constraints/pairs translated from file numbers to positions); real read_topology / MoleculeTop / are_connected / copy results validated by TLC against Trace_Itp.tla; connectivity of large graphs decided by a certificate (component labels + spanning forest) that TLC verifies',
+  'Generated topologies (1..40 atoms: trees, forests, cyclic graphs; gapped increasing numbering; bonds split and repeated over bonds/constraints/pairs blocks; interleaved comments, blank and # lines, varied spacing) and the 13 shipped topologies that fit are read by the real code and TLC checks molecule name, atoms in file order, the exact bond set, symmetry, and again after an ItpFile write; graphs of up to 3000 atoms (chains, trees, forests, cycles) check the bond set and that are_connected answers true exactly when the certified component count is one; a copy must be equal and stay independent under bond/name/resid/name edits.',
+  'Trusts: TLC; the independent tokenizer/renderer and the union-find style labelling in the harness (the certificate itself is verified by TLC).', 'DESIGN 3 C15')
+CHECKS['C16'] = ('itp',
+  'Itp.tla: TLC proves for every file of <= 4 (5) lines over a palette of line shapes that the single-pass reader equals the Abs view, that write-then-read preserves the view and that a second write is identical (PassIsView, RoundTrip, Conservation); every such file rendered to text, random generic files, generated topologies and the shipped topologies go through the real ItpFile read/write/read/write/read and the three observed views are validated by TLC against Trace_Itp.tla',
+  'Exhaustive over the palette (repeated section names, content lines with none / empty / several trailing comments, an empty comment followed by a real one, lone ";", comment-only, blank and preprocessor lines, missing final newline) within the length bound; random files add commented-out directives, comments containing ";", "[x]" and "a=b" tokens; section names in order of first appearance, content lines token by token and comment/preprocessor lines in position must be identical after each round trip.',
+  'Trusts: TLC; harness renderer keeps a blank after each separating ";" and never indents "#" lines; the three biggest shipped files (DNA, > 1200 lines) are checked on their first 1000 lines.', 'DESIGN 3 C16')
+ENGINES['itp'] = ('harness/drivers/itp.py', 'Itp.tla + MC_Itp.tla + Trace_Itp.tla')
+
 PENDING_REASON = 'check not built yet in this round (build in progress; see DESIGN.md Appendix B)'
 
 
